@@ -1,7 +1,7 @@
 (* FaultSim2.v -- lock-step simulation (see FaultSim.v) for the WAL-level
    operations: rotation, StoreLogs, DeleteRange, stable Set, Open. *)
 From RW Require Import Base.Bytes Base.BytesFacts Fmt.Codec Fmt.Frame Wal.Model Wal.Spec Wal.Hist
-  Wal.CrashInv Wal.CrashFacts0 Wal.CrashFacts1 Wal.CrashFacts2 Wal.CrashFacts3 Wal.CrashFacts4 Wal.CrashCalls4
+  Wal.CrashInv Wal.CrashFacts0 Wal.CrashFacts1 Wal.CrashFacts2 Wal.CrashFacts3 Wal.CrashFacts4 Wal.CrashFacts6 Wal.CrashCalls4
   Wal.FaultSim Gen.Constants.
 From Coq Require Import ZifyN ZifyNat ZifyBool.
 Open Scope N_scope.
@@ -302,3 +302,429 @@ Proof.
     inversion E2; subst. eapply pfx_more; [exact C2|]. eapply aext_trans; [apply Hsh2|]. apply sh_delete_files. apply Hsh2.
 Qed.
 
+
+(* ------------------------------------------------------------------ *)
+(* DeleteRange                                                          *)
+Lemma sh_truncate_head c w nm ec r w' ec' : e_fault ec = None -> truncate_head c w nm ec = (r, w', ec') -> shok ec ec'.
+Proof.
+  intros Hf. unfold truncate_head. destruct (head_scan _ _ _ _ _) as [[[rest del] ntr] head].
+  destruct head as [h|].
+  - intros E. eapply shok_trans; [apply shok_add_m; exact Hf|]. eapply sh_mutate; [|exact E]. exact Hf.
+  - destruct (create_next _ _ _ _) as [[nid segs2] si].
+    intros E. eapply shok_trans; [apply shok_add_m; exact Hf|]. eapply sh_mutate; [|exact E]. exact Hf.
+Qed.
+
+(* a failed state transaction: nothing published, or published on disk only *)
+Definition txn_failed (o : option fname) (w0 : wal) (e ec : env) (w' : wal) (e' : env) (ec' : env) : Prop :=
+  (w' = w0 /\ e_disk e' = e_disk e) \/
+  (w' = set_failed w0 /\
+   exists ps, drel o (e_disk e') (apply_act (e_disk ec) (ACommit ps)) /\ pfx ec ec' (apply_act (e_disk ec) (ACommit ps))).
+
+Lemma drel_gone n d dc : drel (Some n) d dc -> lookup n (dk_files dc) = None -> drel None d dc.
+Proof.
+  intros (H1 & H2 & H3 & H4 & H5 & H6) Hn. repeat split; auto. intros m f g A B _. apply (H6 m f g A B).
+  intros K. inversion K; subst. congruence.
+Qed.
+
+Lemma head_scan_spec nm tl : forall segs del ntr rest del' ntr' head,
+  head_scan nm tl segs del ntr = (rest, del', ntr', head) ->
+  exists skipped, segs = skipped ++ rest /\ del' = del ++ map name_of skipped /\
+    match head with None => rest = [] | Some h => exists r, rest = h :: r end.
+Proof.
+  induction segs as [|s segs IH]; intros del ntr rest del' ntr' head; cbn [head_scan].
+  - intros E; inversion E; subst. exists []. cbn. rewrite app_nil_r. auto.
+  - destruct (nm <=? _).
+    + intros E; inversion E; subst. exists []. cbn. rewrite app_nil_r. split; [reflexivity|]. split; [reflexivity|]. exists segs. reflexivity.
+    + intros E. destruct (IH _ _ _ _ _ _ E) as (sk & A & B & C). exists (s :: sk). split; [cbn; rewrite A; reflexivity|].
+      split; [rewrite B, <- app_assoc; reflexivity|exact C].
+Qed.
+
+Lemma tail_info_cons_ne s l : l <> [] -> tail_info (s :: l) = tail_info l.
+Proof. unfold tail_info. destruct l; [congruence|reflexivity]. Qed.
+Lemma tail_info_app_ne a l : l <> [] -> tail_info (a ++ l) = tail_info l.
+Proof. intros H. induction a as [|x a IH]; [reflexivity|]. cbn [app]. rewrite tail_info_cons_ne; [exact IH|]. destruct a; cbn; [exact H|discriminate]. Qed.
+
+Lemma truncate_head_lock o c w nm e ec r w' e' rc wc' ec' : R o e ec ->
+  truncate_head c w nm e = (r, w', e') -> truncate_head c w nm ec = (rc, wc', ec') ->
+  (r = rc /\ w' = wc' /\ R o e' ec' /\
+   (rc = ROk -> forall n ti, o = Some n -> tail_info (st_segs w) = Some ti -> name_of ti = n ->
+      (exists ti', tail_info (st_segs wc') = Some ti' /\ name_of ti' = n /\ st_tail wc' = st_tail w) \/ R None e' ec')) \/
+  (e_fault e' = None /\ r = RErrIO /\ txn_failed o w e ec w' e' ec').
+Proof.
+  intros HR. unfold truncate_head. destruct (head_scan _ _ _ _ _) as [[[rest del] ntr] head] eqn:Ehs.
+  assert (Hmut : forall t f, mutate w t (add_m e f) = (r, w', e') -> mutate w t (add_m ec f) = (rc, wc', ec') ->
+    (r = rc /\ w' = wc' /\ R o e' ec' /\ (rc = ROk -> forall n, o = Some n -> In n (tx_delete t) -> R None e' ec') /\
+     (rc = ROk -> st_segs wc' = tx_segs t /\ (tx_create t = None -> st_tail wc' = tx_tail t))) \/
+    (e_fault e' = None /\ r = RErrIO /\ txn_failed o w e ec w' e' ec')).
+  { intros t f E1 E2. destruct (mutate_lock o w t _ _ _ _ _ _ _ _ (R_add_m o e ec f f HR) E1 E2) as [(H1 & H2 & H3 & H4)|(A & B & [C|(C0 & C1 & C2 & C3 & C4)])].
+    - left. split; [exact H1|]. split; [exact H2|]. split; [exact H3|]. split; [exact H4|].
+      intros Hr. subst rc. unfold mutate in E2. destruct (mutate_gen false w t _) as [[[r0 w0] e0] d0] eqn:Eg. inversion E2; subst.
+      destruct (mutate_gen_ok_facts _ _ _ _ _ _ _ Eg) as (F1 & _ & _ & F4 & _). split; [exact F4|]. intros Hn. rewrite Hn in F1. exact F1.
+    - right. split; [exact A|]. split; [exact B|]. left. exact C.
+    - right. split; [exact A|]. split; [exact B|]. right. split; [exact C1|]. eexists. split; [exact C3|].
+      eapply pfx_shift; [apply aext_add_m|exact C4]. }
+  destruct (head_scan_spec _ _ _ _ _ _ _ _ _ Ehs) as (sk & Hsegs & Hdel & Hhead). cbn [app] in Hdel.
+  destruct head as [h|].
+  - destruct Hhead as (r0 & ->). intros E1 E2. destruct (Hmut _ _ E1 E2) as [(A & B & C & D & E)|F]; [left|right; exact F].
+    split; [exact A|]. split; [exact B|]. split; [exact C|]. intros Hr n ti Ho Hti Hn. left.
+    destruct (E Hr) as (E1' & E2'). cbn [tx_segs tx_create tx_tail] in E1', E2'. specialize (E2' eq_refl).
+    rewrite E1'. cbn [seg_set si_base]. rewrite N.ltb_irrefl, N.eqb_refl.
+    rewrite Hsegs in Hti. rewrite tail_info_app_ne in Hti by discriminate.
+    destruct r0 as [|x r0].
+    + cbn in Hti. inversion Hti; subst ti. eexists. split; [reflexivity|]. split; [exact Hn|exact E2'].
+    + rewrite tail_info_cons_ne in Hti by discriminate. exists ti. rewrite tail_info_cons_ne by discriminate. auto.
+  - subst rest. rewrite app_nil_r in Hsegs. subst sk.
+    destruct (create_next _ _ _ _) as [[nid segs2] si].
+    intros E1 E2. destruct (Hmut _ _ E1 E2) as [(A & B & C & D & E)|F]; [left|right; exact F].
+    split; [exact A|]. split; [exact B|]. split; [exact C|]. intros Hr n ti Ho Hti Hn. right.
+    apply (D Hr n Ho). cbn [tx_delete]. rewrite Hdel. apply in_map_iff. exists ti. split; [exact Hn|]. apply tail_info_In. exact Hti.
+Qed.
+
+Definition set_tail (w : wal) (t : option wseg) : wal :=
+  {| st_next_id := st_next_id w; st_segs := st_segs w; st_tail := t; st_rotate := st_rotate w;
+     st_failed := st_failed w; st_closed := st_closed w |}.
+
+Lemma set_tail_id w : set_tail w (st_tail w) = w.
+Proof. destruct w; reflexivity. Qed.
+
+Lemma tail_scan_spec nm li : forall rsegs del ntr rrest del' ntr',
+  tail_scan nm li rsegs del ntr = (rrest, del', ntr') ->
+  exists sk, rsegs = sk ++ rrest /\ del' = del ++ map name_of sk.
+Proof.
+  induction rsegs as [|s rsegs IH]; intros del ntr rrest del' ntr'; cbn [tail_scan].
+  - intros E; inversion E; subst. exists []. cbn. rewrite app_nil_r. auto.
+  - destruct (si_base s <=? nm).
+    + intros E; inversion E; subst. exists []. cbn. rewrite app_nil_r. auto.
+    + intros E. destruct (IH _ _ _ _ _ E) as (sk & A & B). exists (s :: sk). split; [cbn; rewrite A; reflexivity|].
+      rewrite B, <- app_assoc. reflexivity.
+Qed.
+
+Lemma tail_info_rev l t : tail_info l = Some t -> exists r, rev l = t :: r.
+Proof.
+  intros H. destruct (list_eq_dec_nil l) as [->|Hne]; [discriminate|].
+  destruct (exists_last Hne) as (l' & x & ->). rewrite tail_info_app in H. inversion H; subst.
+  rewrite rev_app_distr. cbn. eexists. reflexivity.
+Qed.
+
+Lemma sh_truncate_tail c w nm ec r w' ec' : e_fault ec = None -> truncate_tail c w nm ec = (r, w', ec') -> shok ec ec'.
+Proof.
+  intros Hf. unfold truncate_tail. destruct (tail_scan _ _ _ _ _) as [[rrest del] ntr].
+  destruct rrest as [|t rr].
+  - destruct (create_next _ _ _ _) as [[nid segs2] si]. intros E. eapply sh_mutate; [|exact E]. exact Hf.
+  - destruct (si_sealed t).
+    + destruct (create_next _ _ _ _) as [[nid segs2] si]. intros E.
+      eapply shok_trans; [apply shok_add_m; exact Hf|]. eapply sh_mutate; [|exact E]. exact Hf.
+    + destruct (st_tail w) as [tw|]; [|intros E; inversion E; subst; apply shok_refl; exact Hf].
+      destruct (seg_force_seal tw ec) as [[r1 tw1] e1] eqn:Efs. pose proof (sh_seg_force_seal _ _ _ _ _ Hf Efs) as H1.
+      destruct r1; try (intros E; inversion E; subst; exact H1).
+      destruct (create_next _ _ _ _) as [[nid segs2] si]. intros E.
+      eapply shok_trans; [exact H1|]. eapply shok_trans; [apply shok_add_m; apply H1|]. eapply sh_mutate; [|exact E]. apply H1.
+Qed.
+
+Definition tail_failed (o : option fname) (w : wal) (e ec : env) (w' : wal) (e' : env) (ec' : env) : Prop :=
+  txn_failed o w e ec w' e' ec' \/
+  (exists tw, st_tail w = Some tw /\ ws_index_start tw = 0 /\ w' = w /\
+     (e_disk e' = e_disk e \/
+      (drel (clr o (ws_name tw)) (e_disk e') (apply_act (e_disk ec) (force_act tw)) /\
+       pfx ec ec' (apply_act (e_disk ec) (force_act tw))))) \/
+  (exists tw tw' e1 ec1 o',
+     st_tail w = Some tw /\ seg_force_seal tw ec = (ROk, tw', ec1) /\ seg_force_seal tw e = (ROk, tw', e1) /\
+     R o' e1 ec1 /\ (o' = o \/ (ws_index_start tw = 0 /\ o' = clr o (ws_name tw))) /\ shok ec ec1 /\
+     ((w' = set_tail w (Some tw') /\ e_disk e' = e_disk e1 /\ pfx ec ec' (e_disk ec1)) \/
+      (w' = set_failed (set_tail w (Some tw')) /\
+       exists ps, drel o' (e_disk e') (apply_act (e_disk ec1) (ACommit ps)) /\
+                  pfx ec ec' (apply_act (e_disk ec1) (ACommit ps))))).
+
+Lemma truncate_tail_lock o c w nm e ec r w' e' rc wc' ec' : R o e ec ->
+  (forall tw, st_tail w = Some tw -> o = Some (ws_name tw) -> wguard (e_disk e) (ws_name tw) (ws_off tw)) ->
+  truncate_tail c w nm e = (r, w', e') -> truncate_tail c w nm ec = (rc, wc', ec') ->
+  (r = rc /\ w' = wc' /\ R o e' ec' /\
+   (rc = ROk -> forall n ti tw, o = Some n -> tail_info (st_segs w) = Some ti -> name_of ti = n -> si_sealed ti = false ->
+      st_tail w = Some tw -> ws_name tw = n -> ws_index_start tw = 0 -> R None e' ec')) \/
+  (e_fault e' = None /\ r = RErrIO /\ tail_failed o w e ec w' e' ec').
+Proof.
+  intros HR Hg. unfold truncate_tail. destruct (tail_scan _ _ _ _ _) as [[rrest del] ntr] eqn:Ets.
+  destruct (tail_scan_spec _ _ _ _ _ _ _ _ Ets) as (sk & Hrev & Hdel). cbn [app] in Hdel.
+  assert (Hmut : forall o1 w0 t e1 ec1, R o1 e1 ec1 -> mutate w0 t e1 = (r, w', e') -> mutate w0 t ec1 = (rc, wc', ec') ->
+    (r = rc /\ w' = wc' /\ R o1 e' ec' /\ (rc = ROk -> forall n, o1 = Some n -> In n (tx_delete t) -> R None e' ec')) \/
+    (e_fault e' = None /\ r = RErrIO /\ txn_failed o1 w0 e1 ec1 w' e' ec')).
+  { intros o1 w0 t e1 ec1 HR1 E1 E2. destruct (mutate_lock o1 w0 t _ _ _ _ _ _ _ _ HR1 E1 E2) as [H|(A & B & [C|(C0 & C1 & C2 & C3 & C4)])].
+    - left. exact H.
+    - right. split; [exact A|]. split; [exact B|]. left. exact C.
+    - right. split; [exact A|]. split; [exact B|]. right. split; [exact C1|]. eexists. split; [exact C3|exact C4]. }
+  destruct rrest as [|t rr].
+  - rewrite app_nil_r in Hrev. destruct (create_next _ _ _ _) as [[nid segs2] si].
+    intros E1 E2. destruct (Hmut o _ _ _ _ HR E1 E2) as [(A & B & C & D)|(A & B & C)].
+    + left. split; [exact A|]. split; [exact B|]. split; [exact C|]. intros Hr n ti tw Ho Hti Hn _ _ _ _.
+      apply (D Hr n Ho). cbn [tx_delete]. rewrite Hdel. apply in_map_iff. exists ti. split; [exact Hn|].
+      rewrite <- Hrev. apply in_rev. rewrite rev_involutive. apply tail_info_In. exact Hti.
+    + right. split; [exact A|]. split; [exact B|]. left. exact C.
+  - destruct (si_sealed t) eqn:Eseal.
+    + destruct (create_next _ _ _ _) as [[nid segs2] si].
+      fold (set_tail w (st_tail w)). rewrite set_tail_id.
+      intros E1 E2.
+      match type of E1 with mutate _ _ (add_m e ?f) = _ =>
+        destruct (Hmut o _ _ _ _ (R_add_m o e ec f f HR) E1 E2) as [(A & B & C & D)|(A & B & C)] end.
+      * left. split; [exact A|]. split; [exact B|]. split; [exact C|]. intros Hr n ti tw Ho Hti Hn Hus _ _ _.
+        apply (D Hr n Ho). cbn [tx_delete]. rewrite Hdel.
+        destruct (tail_info_rev _ _ Hti) as (r0 & Hr0). rewrite Hr0 in Hrev.
+        destruct sk as [|x sk]; cbn [app] in Hrev; injection Hrev as Hx Hrest; [congruence|]. subst x.
+        apply in_map_iff. exists ti. split; [exact Hn|left; reflexivity].
+      * right. split; [exact A|]. split; [exact B|]. left.
+        destruct C as [C|(C1 & ps & C2 & C3)]; [left; exact C|right]. split; [exact C1|]. exists ps. split; [exact C2|].
+        eapply pfx_shift; [apply aext_add_m|exact C3].
+    + destruct (st_tail w) as [tw|] eqn:Etw; [|intros E1 E2; inversion E1; inversion E2; subst; left; repeat split; auto; try apply HR; discriminate].
+      destruct (seg_force_seal tw e) as [[r1 tw1] e1] eqn:Efs. destruct (seg_force_seal tw ec) as [[rc1 twc1] ec1] eqn:Efsc.
+      destruct (seg_force_seal_lock o tw e ec _ _ _ _ _ _ HR (Hg tw eq_refl) Efs Efsc)
+        as (A1 & A2 & [(-> & -> & B3 & B4)|(-> & B0 & -> & -> & B3 & B4)]).
+      * destruct rc1; try (intros E1 E2; inversion E1; inversion E2; subst; left; split; [reflexivity|]; split; [reflexivity|]; split; [exact B3|]; discriminate).
+        destruct (create_next _ _ _ _) as [[nid segs2] si].
+        fold (set_tail w (Some twc1)).
+        assert (Ho' : exists o', R o' e1 ec1 /\ (o' = o \/ (ws_index_start tw = 0 /\ o' = clr o (ws_name tw))) /\
+                                 (ws_index_start tw = 0 -> o' = clr o (ws_name tw))).
+        { destruct (N.eq_dec (ws_index_start tw) 0) as [Z|Z].
+          - exists (clr o (ws_name tw)). split; [apply B4; auto|]. split; [right; auto|auto].
+          - exists o. split; [exact B3|]. split; [left; reflexivity|]. intros K; contradiction. }
+        destruct Ho' as (o' & HR1 & Ho' & Ho'').
+        intros E1 E2.
+        match type of E1 with mutate _ _ (add_m e1 ?f) = _ =>
+          destruct (Hmut o' _ _ _ _ (R_add_m o' e1 ec1 f f HR1) E1 E2) as [(A & B & C & D)|(A & B & C)] end.
+        -- left. split; [exact A|]. split; [exact B|]. split.
+           { destruct Ho' as [->|(_ & ->)]; [exact C|eapply R_clr_weaken; exact C]. }
+           intros Hr n ti tw0 Ho Hti Hn Hus Htw0 Hname His. inversion Htw0; subst tw0.
+           rewrite (Ho'' His) in C. rewrite Ho, <- Hname in C. unfold clr in C. rewrite fname_eqb_refl in C. exact C.
+        -- right. split; [exact A|]. split; [exact B|]. right. right.
+           exists tw, twc1, e1, ec1, o'. split; [exact Etw|]. split; [exact Efsc|]. split; [exact Efs|]. split; [exact HR1|].
+           split; [exact Ho'|]. split; [split; [exact A1|exact A2]|].
+           destruct C as [(C1 & C2)|(C1 & ps & C2 & C3)].
+           ++ left. split; [exact C1|]. split; [exact C2|].
+              match type of E2 with mutate ?w0 ?t ?e0 = _ => pose proof (sh_mutate w0 t e0 _ _ _ A2 E2) as Hsh end.
+              eapply pfx_more; [apply pfx_end; exact A1|]. eapply aext_trans; [apply aext_add_m|apply Hsh].
+           ++ right. split; [exact C1|]. exists ps. split; [exact C2|].
+              eapply pfx_shift; [exact A1|]. eapply pfx_shift; [apply aext_add_m|exact C3].
+      * intros E1 E2; inversion E1; inversion E2; subst. right.
+        split; [exact B3|]. split; [reflexivity|]. right. left. exists tw. split; [exact Etw|]. split; [exact B0|].
+        split; [fold (set_tail w (Some tw)); rewrite <- Etw; apply set_tail_id|].
+        destruct B4 as [B4|(B4 & B5)]; [left; exact B4|right; split; [exact B4|]].
+        destruct (create_next _ _ _ _) as [[nid segs2] si].
+        match goal with H : mutate ?w0 ?t ?e0 = _ |- _ => pose proof (sh_mutate w0 t e0 _ _ _ A2 H) as Hsh end.
+        eapply pfx_more; [exact B5|]. eapply aext_trans; [apply aext_add_m|apply Hsh].
+Qed.
+
+Lemma sh_delete_range c w mn mx ec r w' ec' : e_fault ec = None -> delete_range c w mn mx ec = (r, w', ec') -> shok ec ec'.
+Proof.
+  intros Hf. unfold delete_range. destruct (st_closed w); [intros E; inversion E; subst; apply shok_refl; exact Hf|].
+  destruct (mx <? mn); [intros E; inversion E; subst; apply shok_refl; exact Hf|].
+  destruct (st_failed w); [intros E; inversion E; subst; apply shok_refl; exact Hf|]. cbv zeta.
+  destruct (_ || _); [intros E; inversion E; subst; apply shok_refl; exact Hf|].
+  destruct (mn <=? _); [apply sh_truncate_head; exact Hf|].
+  destruct (_ <=? mx); [apply sh_truncate_tail; exact Hf|].
+  intros E; inversion E; subst; apply shok_refl; exact Hf.
+Qed.
+
+Lemma delete_range_lock o c w mn mx e ec r w' e' rc wc' ec' : R o e ec ->
+  (forall tw, st_tail w = Some tw -> o = Some (ws_name tw) -> wguard (e_disk e) (ws_name tw) (ws_off tw)) ->
+  delete_range c w mn mx e = (r, w', e') -> delete_range c w mn mx ec = (rc, wc', ec') ->
+  (r = rc /\ w' = wc' /\ R o e' ec' /\
+   (rc = ROk -> forall n ti tw, o = Some n -> tail_info (st_segs w) = Some ti -> name_of ti = n -> si_sealed ti = false ->
+      st_tail w = Some tw -> ws_name tw = n -> ws_index_start tw = 0 ->
+      (exists ti', tail_info (st_segs wc') = Some ti' /\ name_of ti' = n /\ st_tail wc' = st_tail w) \/ R None e' ec')) \/
+  (e_fault e' = None /\ r = RErrIO /\ tail_failed o w e ec w' e' ec').
+Proof.
+  intros HR Hg. unfold delete_range.
+  assert (Hsame : forall r0, (r0, w, e) = (r, w', e') -> (r0, w, ec) = (rc, wc', ec') ->
+    (r = rc /\ w' = wc' /\ R o e' ec' /\
+     (rc = ROk -> forall n ti tw, o = Some n -> tail_info (st_segs w) = Some ti -> name_of ti = n -> si_sealed ti = false ->
+        st_tail w = Some tw -> ws_name tw = n -> ws_index_start tw = 0 ->
+        (exists ti', tail_info (st_segs wc') = Some ti' /\ name_of ti' = n /\ st_tail wc' = st_tail w) \/ R None e' ec')) \/
+    (e_fault e' = None /\ r = RErrIO /\ tail_failed o w e ec w' e' ec')).
+  { intros r0 E1 E2. inversion E1; inversion E2; subst. left. split; [reflexivity|]. split; [reflexivity|]. split; [exact HR|].
+    intros _ n ti tw _ Hti Hn _ _ _ _. left. exists ti. auto. }
+  destruct (st_closed w); [apply Hsame|]. destruct (mx <? mn); [apply Hsame|]. destruct (st_failed w); [apply Hsame|]. cbv zeta.
+  destruct (_ || _); [apply Hsame|].
+  destruct (mn <=? _).
+  - intros E1 E2. destruct (truncate_head_lock o c w _ e ec _ _ _ _ _ _ HR E1 E2) as [(A & B & C & D)|(A & B & C)].
+    + left. split; [exact A|]. split; [exact B|]. split; [exact C|]. intros Hr n ti tw Ho Hti Hn _ _ _ _. apply (D Hr n ti Ho Hti Hn).
+    + right. split; [exact A|]. split; [exact B|]. left. exact C.
+  - destruct (_ <=? mx); [|apply Hsame].
+    intros E1 E2. destruct (truncate_tail_lock o c w _ e ec _ _ _ _ _ _ HR Hg E1 E2) as [(A & B & C & D)|F].
+    + left. split; [exact A|]. split; [exact B|]. split; [exact C|]. intros Hr n ti tw Ho Hti Hn Hs Htw Hname His. right.
+      apply (D Hr n ti tw Ho Hti Hn Hs Htw Hname His).
+    + right. exact F.
+Qed.
+
+(* ------------------------------------------------------------------ *)
+(* StableStore.Set                                                      *)
+Lemma sh_set_stable w k v nl ec r ec' : e_fault ec = None -> set_stable w k v nl ec = (r, ec') -> shok ec ec'.
+Proof.
+  intros Hf. unfold set_stable. destruct (st_closed w); [intros E; inversion E; subst; apply shok_refl; exact Hf|].
+  assert (H0 : shok ec (inc_stable ec true)) by (unfold inc_stable; apply shok_add_m; exact Hf).
+  destruct (negb (key_ok k)); [intros E; inversion E; subst; exact H0|].
+  rewrite (io_ok _ (inc_stable ec true) Hf). intros E; inversion E; subst.
+  eapply shok_trans; [exact H0|apply shok_io].
+Qed.
+
+Lemma set_stable_lock o w k v nl e ec r e' rc ec' : R o e ec ->
+  set_stable w k v nl e = (r, e') -> set_stable w k v nl ec = (rc, ec') ->
+  (r = rc /\ R o e' ec') \/ (e_fault e' = None /\ r = RErrIO /\ rc = ROk /\ e_disk e' = e_disk e).
+Proof.
+  intros HR. unfold set_stable. destruct (st_closed w); [intros E1 E2; inversion E1; inversion E2; subst; left; auto|].
+  destruct (negb (key_ok k)); [intros E1 E2; inversion E1; inversion E2; subst; left; split; [reflexivity|exact HR]|].
+  assert (HR0 : R o (inc_stable e true) (inc_stable ec true)) by exact HR.
+  destruct (io_lock o (ASetStable k v) _ _ HR0 I) as (Ec & [(e1 & Er & HR1)|(e1 & Er & D & F)]); rewrite Ec, Er;
+    intros E1 E2; inversion E1; inversion E2; subst; [left; auto|right; auto].
+Qed.
+
+(* ------------------------------------------------------------------ *)
+(* Open (reads file contents: needs the strict relation)                *)
+Lemma drel_cur d dc n : drel None d dc ->
+  match lookup n (dk_files d), lookup n (dk_files dc) with
+  | Some f, Some g => cur_ents f = cur_ents g /\ cur_end f = cur_end g /\ cur_seal f = cur_seal g
+  | None, None => True
+  | _, _ => False
+  end.
+Proof.
+  intros (H1 & _ & _ & _ & _ & H6). pose proof (lrel_lookup n _ _ H1) as K.
+  destruct (lookup n (dk_files d)) as [f|] eqn:Ef, (lookup n (dk_files dc)) as [g|] eqn:Eg; auto.
+  destruct K as (K1 & K2 & K3 & _). specialize (H6 n f g Ef Eg ltac:(discriminate)).
+  unfold cur_ents, cur_end, cur_seal. rewrite H6, K1, K2, K3. auto.
+Qed.
+
+Lemma seg_recover_rel si e ec : drel None (e_disk e) (e_disk ec) -> seg_recover si e = seg_recover si ec.
+Proof.
+  intros H. unfold seg_recover. pose proof (drel_cur _ _ (name_of si) H) as K.
+  destruct (lookup _ (dk_files (e_disk e))) as [f|], (lookup _ (dk_files (e_disk ec))) as [g|]; [|destruct K|destruct K|reflexivity].
+  destruct K as (K1 & K2 & K3). rewrite K1, K2, K3. reflexivity.
+Qed.
+
+Lemma sh_open_segs c : forall segs acc ec r sl tl ec', e_fault ec = None ->
+  open_segs c segs acc ec = (r, sl, tl, ec') -> shok ec ec'.
+Proof.
+  induction segs as [|si segs IH]; intros acc ec r sl tl ec' Hf; cbn [open_segs].
+  - intros E; inversion E; subst. apply shok_refl; exact Hf.
+  - destruct (negb (si_codec si =? c_codec c)); [intros E; inversion E; subst; apply shok_refl; exact Hf|].
+    destruct (negb (si_sealed si)).
+    + destruct segs; [|intros E; inversion E; subst; apply shok_refl; exact Hf].
+      destruct (seg_recover si ec) as [x|].
+      * destruct x as [sw|]; [|intros E; inversion E; subst; apply shok_refl; exact Hf].
+        destruct (0 <? _); intros E; inversion E; subst; apply shok_refl; exact Hf.
+      * destruct (seg_create si ec) as [sw e1] eqn:Es. pose proof (sh_seg_create _ _ _ _ Hf Es) as H1.
+        destruct sw as [sw|]; [|intros E; inversion E; subst; exact H1].
+        destruct (0 <? _); intros E; inversion E; subst; exact H1.
+    + destruct (lookup _ _) as [f|]; [|intros E; inversion E; subst; apply shok_refl; exact Hf].
+      destruct (cur_end f =? 0); [intros E; inversion E; subst; apply shok_refl; exact Hf|]. apply IH. exact Hf.
+Qed.
+
+Lemma open_segs_lock c : forall segs acc e ec r sl tl e' rc slc tlc ec', R None e ec ->
+  open_segs c segs acc e = (r, sl, tl, e') -> open_segs c segs acc ec = (rc, slc, tlc, ec') ->
+  (r = rc /\ sl = slc /\ tl = tlc /\ R None e' ec') \/
+  (e_fault e' = None /\ r = RErrIO /\ e_disk e' = e_disk e).
+Proof.
+  induction segs as [|si segs IH]; intros acc e ec r sl tl e' rc slc tlc ec' HR; cbn [open_segs].
+  - intros E1 E2; inversion E1; inversion E2; subst. left. auto.
+  - destruct (negb (si_codec si =? c_codec c)); [intros E1 E2; inversion E1; inversion E2; subst; left; auto|].
+    destruct (negb (si_sealed si)).
+    + destruct segs; [|intros E1 E2; inversion E1; inversion E2; subst; left; auto].
+      rewrite (seg_recover_rel si e ec (proj1 HR)).
+      destruct (seg_recover si ec) as [x|].
+      * destruct x as [sw|]; [|intros E1 E2; inversion E1; inversion E2; subst; left; auto].
+        destruct (0 <? _); intros E1 E2; inversion E1; inversion E2; subst; left; auto.
+      * destruct (seg_create si e) as [sw e1] eqn:Es. destruct (seg_create si ec) as [swc ec1] eqn:Esc.
+        destruct (seg_create_lock None si e ec _ _ _ _ HR Es Esc) as (_ & _ & [(-> & HR1)|(-> & -> & D & F & _)]).
+        -- destruct swc as [sw|]; [|intros E1 E2; inversion E1; inversion E2; subst; left; auto].
+           destruct (0 <? _); intros E1 E2; inversion E1; inversion E2; subst; left; auto.
+        -- intros E1 _. inversion E1; subst. right. auto.
+    + pose proof (drel_cur _ _ (name_of si) (proj1 HR)) as K.
+      destruct (lookup _ (dk_files (e_disk e))) as [f|], (lookup _ (dk_files (e_disk ec))) as [g|];
+        [|destruct K|destruct K|intros E1 E2; inversion E1; inversion E2; subst; left; auto].
+      destruct K as (_ & K2 & _). rewrite K2.
+      destruct (cur_end g =? 0); [intros E1 E2; inversion E1; inversion E2; subst; left; auto|].
+      apply IH. exact HR.
+Qed.
+
+Definition open_failed (e1 ec1 : env) (res : open_res) (e' ec' : env) : Prop :=
+  e_fault e' = None /\ (exists x, res = OErr x) /\ exists dm, drel None (e_disk e') dm /\ pfx ec1 ec' dm.
+
+Lemma open_newtail_lock c nid segs garbage e1 ec1 res e' resc ec' : R None e1 ec1 ->
+  open_newtail c nid segs garbage e1 = (res, e') -> open_newtail c nid segs garbage ec1 = (resc, ec') ->
+  (res = resc /\ R None e' ec') \/ open_failed e1 ec1 res e' ec'.
+Proof.
+  intros HR. unfold open_newtail.
+  match goal with |- context [io (ACommit ?ps) e1] =>
+    destruct (io_lock None (ACommit ps) e1 ec1 HR I) as (Ec & [(e2 & Er & HR2)|(e2 & Er & D & F)]); rewrite Ec, Er; cbn [negb];
+    set (ec2 := io_env (ACommit ps) ec1) in * end.
+  - destruct (seg_create _ e2) as [sw e3] eqn:Es. destruct (seg_create _ ec2) as [swc ec3] eqn:Esc.
+    destruct (seg_create_lock None _ e2 ec2 _ _ _ _ HR2 Es Esc) as (A1 & A2 & [(-> & HR3)|(-> & -> & D & F & _)]).
+    + destruct swc as [sw|]; intros E1 E2; inversion E1; inversion E2; subst; left; [|auto].
+      split; [reflexivity|]. apply (delete_files_lock None garbage e3 ec3 HR3).
+    + intros E1 E2. inversion E1; subst. right. split; [exact F|]. split; [eexists; reflexivity|].
+      exists (e_disk ec2). split; [rewrite D; apply HR2|].
+      inversion E2; subst. eapply pfx_more; [apply (pfx_end ec1 ec2); apply aext_io|].
+      eapply aext_trans; [exact A1|]. apply sh_delete_files. exact A2.
+  - intros E1 E2. inversion E1; subst. right. split; [exact F|]. split; [eexists; reflexivity|].
+    exists (e_disk ec1). split; [rewrite D; apply HR|].
+    apply pfx_start.
+    destruct (seg_create _ ec2) as [swc ec3] eqn:Esc. pose proof (sh_seg_create _ _ _ _ (io_env_fault _ _) Esc) as H3.
+    destruct swc; inversion E2; subst.
+    + eapply aext_trans; [apply aext_io|]. eapply aext_trans; [apply H3|]. apply sh_delete_files. apply H3.
+    + eapply aext_trans; [apply aext_io|apply H3].
+Qed.
+
+Lemma sh_open_rest c ec res ec' : e_fault ec = None -> open_rest c ec = (res, ec') -> shok ec ec'.
+Proof.
+  intros Hf. unfold open_rest.
+  destruct (open_segs c _ [] ec) as [[[r segs] tail] ec1] eqn:Eo. pose proof (sh_open_segs _ _ _ _ _ _ _ _ Hf Eo) as H1.
+  destruct r; try (intros E; inversion E; subst; exact H1).
+  destruct tail as [tw|].
+  - intros E; inversion E; subst. eapply shok_trans; [exact H1|]. apply sh_delete_files. apply H1.
+  - unfold open_newtail. rewrite (io_ok _ _ (proj2 H1)). cbn [negb].
+    destruct (seg_create _ _) as [sw ec3] eqn:Es. pose proof (sh_seg_create _ _ _ _ (io_env_fault _ _) Es) as H3.
+    assert (H13 : shok ec ec3).
+    { eapply shok_trans; [exact H1|]. eapply shok_trans; [apply shok_io|exact H3]. }
+    destruct sw; intros E; inversion E; subst; [|exact H13].
+    eapply shok_trans; [exact H13|]. apply sh_delete_files. apply H3.
+Qed.
+
+Lemma open_rest_lock c e0 ec0 res e' resc ec' : R None e0 ec0 ->
+  open_rest c e0 = (res, e') -> open_rest c ec0 = (resc, ec') ->
+  (res = resc /\ R None e' ec') \/ open_failed e0 ec0 res e' ec'.
+Proof.
+  intros HR. unfold open_rest. pose proof HR as ((Hl & Hm & _) & Hf). rewrite Hm, (lrel_keys _ _ Hl).
+  set (ps := match dk_meta (e_disk ec0) with Some ps => ps | None => {| ps_next_id := 0; ps_segs := [] |} end).
+  destruct (open_segs c (ps_segs ps) [] e0) as [[[r segs] tail] e1] eqn:Eo.
+  destruct (open_segs c (ps_segs ps) [] ec0) as [[[rc segsc] tailc] ec1] eqn:Eoc.
+  pose proof (sh_open_segs _ _ _ _ _ _ _ _ Hf Eoc) as H1.
+  destruct (open_segs_lock c _ _ _ _ _ _ _ _ _ _ _ _ HR Eo Eoc) as [(-> & -> & -> & HR1)|(F & -> & D)].
+  - destruct rc; [|intros E1 E2; inversion E1; inversion E2; subst; left; split; [reflexivity|exact HR1] ..].
+    destruct tailc as [tw|].
+    + intros E1 E2; inversion E1; inversion E2; subst. left. split; [reflexivity|]. apply (delete_files_lock None _ e1 ec1 HR1).
+    + intros E1 E2. destruct (open_newtail_lock c _ _ _ e1 ec1 _ _ _ _ HR1 E1 E2) as [G|(G1 & G2 & dm & G3 & G4)]; [left; exact G|right].
+      split; [exact G1|]. split; [exact G2|]. exists dm. split; [exact G3|]. eapply pfx_shift; [apply H1|exact G4].
+  - intros E1 E2. inversion E1; subst. right. split; [exact F|]. split; [eexists; reflexivity|].
+    exists (e_disk ec0). split; [rewrite D; apply HR|]. apply pfx_start.
+    pose proof (sh_open_rest c ec0 resc ec' Hf) as Hsh. unfold open_rest in Hsh. fold ps in Hsh. rewrite Eoc in Hsh.
+    apply Hsh. exact E2.
+Qed.
+
+Lemma sh_open_wal c ec res ec' : e_fault ec = None -> open_wal c ec = (res, ec') -> shok ec ec'.
+Proof.
+  intros Hf. rewrite open_wal_unfold. destruct (_ && _); [intros E; inversion E; subst; apply shok_refl; exact Hf|].
+  destruct (dk_inited (e_disk ec)); cbn [negb]; [apply sh_open_rest; exact Hf|].
+  rewrite (io_ok _ _ Hf). cbn [negb]. intros E. eapply shok_trans; [apply shok_io|]. eapply sh_open_rest; [|exact E]. reflexivity.
+Qed.
+
+Lemma open_wal_lock c e ec res e' resc ec' : R None e ec ->
+  open_wal c e = (res, e') -> open_wal c ec = (resc, ec') ->
+  (res = resc /\ R None e' ec') \/ open_failed e ec res e' ec'.
+Proof.
+  intros HR. rewrite !open_wal_unfold. destruct (_ && _); [intros E1 E2; inversion E1; inversion E2; subst; left; auto|].
+  pose proof HR as ((_ & _ & _ & Hin & _) & Hf). rewrite Hin.
+  destruct (dk_inited (e_disk ec)).
+  - cbn [negb]. apply open_rest_lock. exact HR.
+  - destruct (io_lock None AInitMeta e ec HR I) as (Ec & [(e1 & Er & HR1)|(e1 & Er & D & F)]); rewrite Ec, Er; cbn [negb].
+    + intros E1 E2. destruct (open_rest_lock c _ _ _ _ _ _ HR1 E1 E2) as [G|(G1 & G2 & dm & G3 & G4)]; [left; exact G|right].
+      split; [exact G1|]. split; [exact G2|]. exists dm. split; [exact G3|]. eapply pfx_shift; [apply aext_io|exact G4].
+    + intros E1 E2. inversion E1; subst. right. split; [exact F|]. split; [eexists; reflexivity|].
+      exists (e_disk ec). split; [rewrite D; apply HR|]. apply pfx_start.
+      eapply aext_trans; [apply aext_io|]. eapply sh_open_rest; [|exact E2]. reflexivity.
+Qed.
